@@ -9,7 +9,8 @@
    [well_indexed] is C11's index-bijection statement, here a named hypothesis: distinct triangles / vertices of a
    mesh have distinct unknown indices and the vertex and triangle unknown ranges are disjoint. *)
 From OM Require Import Base.Lists Geom.ParLoops Geom.ParLoopsProofs Geom.ParLoopsCrit Geom.ParLoopsGeom Geom.ParLoopsLoops
-  Geom.ParLoopsExamples Gen.GenParLoops.
+  Geom.ParLoopsExamples Gen.GenParLoops Geom.ParLoopsConfigs.
+From OM Require Gen.GenParLoops_clang Gen.GenParLoops_apple Gen.ParLoopsLoops_clang.
 From Coq Require Import Reals Permutation.
 Local Open Scope Z_scope.
 
@@ -236,6 +237,89 @@ Theorem unprotected_accumulation_refuted :
       <> run_seq Z unit (potder_unprotected [ex_t4; ex_t5]) (fun _ => 0) s.
 Proof. exact potder_unprotected_schedule_dependent. Qed.
 Print Assumptions unprotected_accumulation_refuted.
+
+(* ================= the other build configurations (conditional compilation evaluated under each) ================= *)
+(* clang / libomp on Linux -- the property's second observation point.  Gen/ParLoopsLoops_clang.v is the per-loop proof
+   script re-checked against GenParLoops_clang; the statements that matter most are repeated here. *)
+Module C := Gen.GenParLoops_clang.
+Module LC := Gen.ParLoopsLoops_clang.
+
+Theorem clang_all_parallel_loops_are_covered : C.gen_region_count = 9%nat /\ C.gen_critical_sections = 1%nat.
+Proof. split; reflexivity. Qed.
+
+Theorem clang_loop_dipolepotder_DRF : forall (F E : Type) fadd f0 ts c val exn,
+  DRF F E (r_its F E (C.loop_operators_cpp_operatorDipolePotDer F E fadd f0 ts c val exn)).
+Proof. exact LC.loop_potder_DRF. Qed.
+Print Assumptions clang_loop_dipolepotder_DRF.
+
+Theorem clang_loop_dipolepotder_is_a_critical_sum : forall (F E : Type) fadd f0 ts c val,
+  r_its F E (C.loop_operators_cpp_operatorDipolePotDer F E fadd f0 ts c val (fun _ => None)) =
+  crit_its F E fadd f0 (LC.potder_contribs F c val ts).
+Proof. exact LC.loop_potder_shape. Qed.
+Print Assumptions clang_loop_dipolepotder_is_a_critical_sum.
+
+Theorem clang_loop_D_DRF : forall (F E : Type) fadd f0 isV ms m1 m2 c a val exn,
+  well_indexed isV ms -> In m1 ms -> In m2 ms -> sym_inj (fun i => 0 <= i) a ->
+  conflict_free F E (r_its F E (C.loop_operators_h_BlocksBase_D F E fadd f0 (m_triangles m1) (m_triangles m2) c a val exn)).
+Proof. exact LC.loop_D_cf_sym. Qed.
+Print Assumptions clang_loop_D_DRF.
+
+Theorem clang_owner_computes_loops_DRF : forall (F E : Type) fadd f0,
+  (forall (domr domc : Z -> Prop) ts k c a val exn, NoDup (map t_index ts) -> LC.row_inj domr domc a ->
+     domr (t_index (nth k ts dtri)) -> (forall t, In t ts -> domc (t_index t)) ->
+     conflict_free F E (r_its F E (C.loop_operators_h_DiagonalBlock_S F E fadd f0 ts k c a val exn))) /\
+  (forall (domr domc : Z -> Prop) ts1 t1 ts2 c a val exn, NoDup (map t_index ts2) -> LC.row_inj domr domc a ->
+     domr (t_index t1) -> (forall t, In t ts2 -> domc (t_index t)) ->
+     conflict_free F E (r_its F E (C.loop_operators_h_NonDiagonalBlock_S F E fadd f0 ts1 t1 ts2 c a val exn))) /\
+  (forall isV ms m k c a val exn, well_indexed isV ms -> In m ms -> sym_inj (fun i => 0 <= i) a -> (k < length (m_vertices m))%nat ->
+     conflict_free F E (r_its F E (C.loop_operators_h_DiagonalBlock_N F E fadd f0 (m_vertices m) k c a (m_adj m) c a val exn))) /\
+  (forall isV ms m1 m2 v1 c a val exn, well_indexed isV ms -> In m1 ms -> In m2 ms -> sym_inj (fun i => 0 <= i) a -> In v1 (m_vertices m1) ->
+     conflict_free F E (r_its F E (C.loop_operators_h_NonDiagonalBlock_N F E fadd f0 (m_vertices m1) v1 (m_vertices m2) c a (m_adj m1) (m_adj m2) c a val exn))) /\
+  (forall (domr domc : Z -> Prop) vs k c a val exn, NoDup vs -> LC.row_inj domr domc a -> domr (nth k vs 0) -> (forall v, In v vs -> domc v) ->
+     conflict_free F E (r_its F E (C.loop_assembleHeadMat_cpp_deflate F E fadd f0 vs k c a val exn))) /\
+  (forall vs c off nlin v0 v1 v2 exn, NoDup vs -> 0 <= off -> off + 2 < nlin ->
+     conflict_free F E (r_its F E (C.loop_operators_cpp_operatorFerguson F E fadd f0 vs c off nlin v0 v1 v2 exn))) /\
+  (forall ts c val exn, NoDup (map t_index ts) ->
+     conflict_free F E (r_its F E (C.loop_operators_cpp_operatorDipolePot F E fadd f0 ts c val exn))).
+Proof.
+  intros F E fadd f0. repeat split.
+  - exact (LC.loop_S_diag_cf F E fadd f0). - exact (LC.loop_S_nondiag_cf F E fadd f0).
+  - exact (LC.loop_N_diag_cf_alias F E fadd f0). - exact (LC.loop_N_nondiag_cf_alias F E fadd f0).
+  - exact (LC.loop_deflate_cf F E fadd f0). - exact (LC.loop_ferguson_cf F E fadd f0). - exact (LC.loop_dipolepot_cf F E fadd f0).
+Qed.
+Print Assumptions clang_owner_computes_loops_DRF.
+
+(* macOS (`__APPLE__`, clang): the pinned source itself drops the omp critical of operatorDipolePotDer.  The other eight
+   loops and the exception machinery are literally those of the g++ configuration; the accumulation is NOT race free
+   and its result depends on the schedule (full statement refuted; recorded as a known finding for macOS builds and
+   replayed by the check on a clang build of operators.cpp with -D__APPLE__). *)
+Theorem apple_other_loops_unchanged :
+  Gen.GenParLoops_apple.loop_operators_h_BlocksBase_D = Gen.GenParLoops_gcc.loop_operators_h_BlocksBase_D /\
+  Gen.GenParLoops_apple.loop_operators_h_DiagonalBlock_S = Gen.GenParLoops_gcc.loop_operators_h_DiagonalBlock_S /\
+  Gen.GenParLoops_apple.loop_operators_h_DiagonalBlock_N = Gen.GenParLoops_gcc.loop_operators_h_DiagonalBlock_N /\
+  Gen.GenParLoops_apple.loop_operators_h_NonDiagonalBlock_S = Gen.GenParLoops_gcc.loop_operators_h_NonDiagonalBlock_S /\
+  Gen.GenParLoops_apple.loop_operators_h_NonDiagonalBlock_N = Gen.GenParLoops_gcc.loop_operators_h_NonDiagonalBlock_N /\
+  Gen.GenParLoops_apple.loop_assembleHeadMat_cpp_deflate = Gen.GenParLoops_gcc.loop_assembleHeadMat_cpp_deflate /\
+  Gen.GenParLoops_apple.loop_operators_cpp_operatorFerguson = Gen.GenParLoops_gcc.loop_operators_cpp_operatorFerguson /\
+  Gen.GenParLoops_apple.loop_operators_cpp_operatorDipolePot = Gen.GenParLoops_gcc.loop_operators_cpp_operatorDipolePot /\
+  Gen.GenParLoops_apple.gen_region_count = Gen.GenParLoops_gcc.gen_region_count /\
+  Gen.GenParLoops_apple.gen_progressbar_empty = Gen.GenParLoops_gcc.gen_progressbar_empty /\
+  Gen.GenParLoops_apple.gen_te_capture_locked = Gen.GenParLoops_gcc.gen_te_capture_locked /\
+  Gen.GenParLoops_apple.gen_te_run_catches_all = Gen.GenParLoops_gcc.gen_te_run_catches_all /\
+  Gen.GenParLoops_apple.gen_te_rethrow_rethrows = Gen.GenParLoops_gcc.gen_te_rethrow_rethrows.
+Proof. exact apple_other_loops_are_the_gcc_ones. Qed.
+
+Theorem apple_loop_dipolepotder_DRF_refuted : ~ DRF Z unit apple_potder_its.
+Proof. exact apple_potder_not_DRF. Qed.
+Print Assumptions apple_loop_dipolepotder_DRF_refuted.
+
+Theorem apple_loop_dipolepotder_schedule_independence_refuted :
+  exists sch s,
+    finished Z unit (run Z unit sch (init Z unit apple_potder_its (fun _ => 0))) /\
+    c_store Z unit (run Z unit sch (init Z unit apple_potder_its (fun _ => 0))) s
+      <> run_seq Z unit apple_potder_its (fun _ => 0) s.
+Proof. exact apple_potder_schedule_dependent. Qed.
+Print Assumptions apple_loop_dipolepotder_schedule_independence_refuted.
 
 (* ================= the container kinds the templates are instantiated with satisfy the addressing hypotheses ================= *)
 Theorem symmatrix_addressing : sym_inj (fun i => 0 <= i) pidx.
